@@ -21,6 +21,7 @@ import (
 	"iter"
 	"maps"
 	"net/http"
+	"net/textproto"
 	"slices"
 	"strconv"
 	"strings"
@@ -256,15 +257,29 @@ func formatQValue(q float64) string {
 //   - https://www.rfc-editor.org/rfc/rfc9110.html#name-content-coding
 //   - https://datatracker.ietf.org/doc/html/rfc9110#name-te
 //   - https://www.rfc-editor.org/rfc/rfc9112#section-7
-var encodingReplacer = strings.NewReplacer(
-	"x-gzip", "gzip",
-	"x-compress", "compress",
-)
+var encodingAliases = map[string]string{
+	"x-gzip":     "gzip",
+	"x-compress": "compress",
+}
 
-// normalizeEncodingHeader handles special cases for encoding headers.
+// normalizeEncodingHeader handles special cases for encoding headers. An alias
+// is replaced only where it is the whole coding name of a list member
+// ("xx-gzip" is not "x" followed by the alias).
 func normalizeEncodingHeader(value string) string {
-	value = encodingReplacer.Replace(value)
-	return normalizeOrderInsensitive(value)
+	parts := slices.Collect(TrimmedCSVSeq(value))
+	for i, part := range parts {
+		name, params, hasParams := strings.Cut(part, ";")
+		canonical, isAlias := encodingAliases[textproto.TrimString(name)]
+		if !isAlias {
+			continue
+		}
+		if hasParams {
+			canonical += ";" + params
+		}
+		parts[i] = canonical
+	}
+	slices.Sort(parts)
+	return strings.Join(parts, ",")
 }
 
 // VaryHeaderNormalizer describes the interface implemented by types that can
